@@ -1,5 +1,5 @@
 // auto-generated: "lalrpop 0.23.1"
-// sha3: 402c1d638b9804a7866952da2f78758e86170171c3d867ff6a3e3d1f75e4dde0
+// sha3: 793d0c1e4f3c3c1e087913d7a670c1838c264c74647fc55260d0cffab1350a07
 use crate::rt::*;
 #[allow(unused_extern_crates)]
 extern crate lalrpop_util as __lalrpop_util;
@@ -29,102 +29,55 @@ mod __parse__S {
     }
     const __ACTION: &[i8] = &[
         // State 0
-        7, 8, 0, 0, 0, 0, 0,
+        3, 0, 0, 0,
         // State 1
-        0, 0, 0, 0, 0, 9, 0,
+        0, 0, 0, 0,
         // State 2
-        0, 0, 0, 0, 0, 9, 0,
+        0, 4, 0, 0,
         // State 3
-        0, 0, -5, -5, 0, 11, 12,
+        0, 0, 6, 5,
         // State 4
-        0, 0, -5, -5, 0, 11, 12,
+        0, 0, 0, 0,
         // State 5
-        0, 0, 0, 0, 0, 0, 0,
+        0, 7, 0, 0,
         // State 6
-        0, 0, 0, 0, 2, 0, 0,
+        0, 0, 0, 8,
         // State 7
-        0, 0, 0, 0, 3, 0, 0,
-        // State 8
-        0, 0, -3, -3, 0, -3, -3,
-        // State 9
-        0, 0, 14, 15, 0, 0, 0,
-        // State 10
-        0, 0, -4, -4, 0, -4, -4,
-        // State 11
-        0, 0, -6, -6, 0, 0, 0,
-        // State 12
-        0, 0, 16, 17, 0, 0, 0,
-        // State 13
-        0, 0, 0, 0, 0, 0, 0,
-        // State 14
-        0, 0, 0, 0, 0, 0, 0,
-        // State 15
-        0, 0, 0, 0, 0, 0, 0,
-        // State 16
-        0, 0, 0, 0, 0, 0, 0,
+        0, 0, 0, 0,
     ];
     fn __action(state: i8, integer: usize) -> i8 {
-        __ACTION[(state as usize) * 7 + integer]
+        __ACTION[(state as usize) * 4 + integer]
     }
     const __EOF_ACTION: &[i8] = &[
         // State 0
         0,
         // State 1
-        0,
+        -11,
         // State 2
         0,
         // State 3
-        0,
+        -5,
         // State 4
-        0,
+        -6,
         // State 5
-        -13,
+        0,
         // State 6
-        0,
-        // State 7
-        0,
-        // State 8
-        0,
-        // State 9
-        0,
-        // State 10
-        0,
-        // State 11
-        0,
-        // State 12
-        0,
-        // State 13
-        -8,
-        // State 14
         -7,
-        // State 15
-        -9,
-        // State 16
-        -10,
+        // State 7
+        -8,
     ];
     fn __goto(state: i8, nt: usize) -> i8 {
         match nt {
-            2 => match state {
-                2 => 4,
-                _ => 3,
-            },
-            3 => match state {
-                4 => 12,
-                _ => 9,
-            },
-            4 => 5,
+            3 => 1,
             _ => 0,
         }
     }
     #[allow(clippy::needless_raw_string_hashes)]
     const __TERMINAL: &[&str] = &[
-        r###""a""###,
-        r###""b""###,
-        r###""c""###,
-        r###""d""###,
-        r###""e""###,
-        r###""q""###,
-        r###""r""###,
+        r###""let""###,
+        r###""id""###,
+        r###""=""###,
+        r###"";""###,
     ];
     fn __expected_tokens(__state: i8) -> alloc::vec::Vec<alloc::string::String> {
         __TERMINAL.iter().enumerate().filter_map(|(index, terminal)| {
@@ -191,7 +144,7 @@ mod __parse__S {
 
         #[inline]
         fn error_action(&self, state: i8) -> i8 {
-            __action(state, 7 - 1)
+            __action(state, 4 - 1)
         }
 
         #[inline]
@@ -261,9 +214,6 @@ mod __parse__S {
             Tok('b', _, _, _) if true => Some(1),
             Tok('c', _, _, _) if true => Some(2),
             Tok('d', _, _, _) if true => Some(3),
-            Tok('e', _, _, _) if true => Some(4),
-            Tok('f', _, _, _) if true => Some(5),
-            Tok('g', _, _, _) if true => Some(6),
             _ => None,
         }
     }
@@ -275,7 +225,7 @@ mod __parse__S {
     ) -> __Symbol<>
     {
         #[allow(clippy::manual_range_patterns)]match __token_index {
-            0 | 1 | 2 | 3 | 4 | 5 | 6 => __Symbol::Variant0(__token),
+            0 | 1 | 2 | 3 => __Symbol::Variant0(__token),
             _ => unreachable!(),
         }
     }
@@ -300,7 +250,7 @@ mod __parse__S {
             }
             2 => {
                 __state_machine::SimulatedReduce::Reduce {
-                    states_to_pop: 1,
+                    states_to_pop: 0,
                     nonterminal_produced: 2,
                 }
             }
@@ -312,53 +262,41 @@ mod __parse__S {
             }
             4 => {
                 __state_machine::SimulatedReduce::Reduce {
-                    states_to_pop: 0,
+                    states_to_pop: 2,
                     nonterminal_produced: 3,
                 }
             }
             5 => {
                 __state_machine::SimulatedReduce::Reduce {
-                    states_to_pop: 1,
+                    states_to_pop: 3,
                     nonterminal_produced: 3,
                 }
             }
             6 => {
                 __state_machine::SimulatedReduce::Reduce {
-                    states_to_pop: 5,
-                    nonterminal_produced: 4,
+                    states_to_pop: 4,
+                    nonterminal_produced: 3,
                 }
             }
             7 => {
                 __state_machine::SimulatedReduce::Reduce {
                     states_to_pop: 5,
-                    nonterminal_produced: 4,
+                    nonterminal_produced: 3,
                 }
             }
             8 => {
                 __state_machine::SimulatedReduce::Reduce {
-                    states_to_pop: 5,
+                    states_to_pop: 0,
                     nonterminal_produced: 4,
                 }
             }
             9 => {
                 __state_machine::SimulatedReduce::Reduce {
-                    states_to_pop: 5,
+                    states_to_pop: 1,
                     nonterminal_produced: 4,
                 }
             }
-            10 => {
-                __state_machine::SimulatedReduce::Reduce {
-                    states_to_pop: 3,
-                    nonterminal_produced: 5,
-                }
-            }
-            11 => {
-                __state_machine::SimulatedReduce::Reduce {
-                    states_to_pop: 3,
-                    nonterminal_produced: 6,
-                }
-            }
-            12 => __state_machine::SimulatedReduce::Accept,
+            10 => __state_machine::SimulatedReduce::Accept,
             _ => panic!("invalid reduction index {__reduce_index}")
         }
     }
@@ -466,12 +404,6 @@ mod __parse__S {
                 __reduce9(__lookahead_start, __symbols, core::marker::PhantomData::<()>)
             }
             10 => {
-                __reduce10(__lookahead_start, __symbols, core::marker::PhantomData::<()>)
-            }
-            11 => {
-                __reduce11(__lookahead_start, __symbols, core::marker::PhantomData::<()>)
-            }
-            12 => {
                 // __S = S => ActionFn(0);
                 let __sym0 = __pop_Variant2(__symbols);
                 let __start = __sym0.0.clone();
@@ -529,10 +461,10 @@ mod __parse__S {
         _: core::marker::PhantomData<()>,
     ) -> (usize, usize)
     {
-        // @L =  => ActionFn(12);
+        // @L =  => ActionFn(7);
         let __start = __lookahead_start.cloned().or_else(|| __symbols.last().map(|s| s.2.clone())).unwrap_or_default();
         let __end = __start.clone();
-        let __nt = super::__action12::<>(&__start, &__end);
+        let __nt = super::__action7::<>(&__start, &__end);
         __symbols.push((__start, __Symbol::Variant1(__nt), __end));
         (0, 0)
     }
@@ -543,10 +475,10 @@ mod __parse__S {
         _: core::marker::PhantomData<()>,
     ) -> (usize, usize)
     {
-        // @R =  => ActionFn(11);
+        // @R =  => ActionFn(6);
         let __start = __lookahead_start.cloned().or_else(|| __symbols.last().map(|s| s.2.clone())).unwrap_or_default();
         let __end = __start.clone();
-        let __nt = super::__action11::<>(&__start, &__end);
+        let __nt = super::__action6::<>(&__start, &__end);
         __symbols.push((__start, __Symbol::Variant1(__nt), __end));
         (0, 1)
     }
@@ -557,13 +489,12 @@ mod __parse__S {
         _: core::marker::PhantomData<()>,
     ) -> (usize, usize)
     {
-        // Q = "q" => ActionFn(23);
-        let __sym0 = __pop_Variant0(__symbols);
-        let __start = __sym0.0.clone();
-        let __end = __sym0.2.clone();
-        let __nt = super::__action23::<>(__sym0);
+        // Init =  => ActionFn(13);
+        let __start = __lookahead_start.cloned().or_else(|| __symbols.last().map(|s| s.2.clone())).unwrap_or_default();
+        let __end = __start.clone();
+        let __nt = super::__action13::<>(&__start, &__end);
         __symbols.push((__start, __Symbol::Variant2(__nt), __end));
-        (1, 2)
+        (0, 2)
     }
     fn __reduce3<
     >(
@@ -572,13 +503,13 @@ mod __parse__S {
         _: core::marker::PhantomData<()>,
     ) -> (usize, usize)
     {
-        // Q = Q, "q" => ActionFn(24);
+        // Init = "=", "id" => ActionFn(14);
         assert!(__symbols.len() >= 2);
         let __sym1 = __pop_Variant0(__symbols);
-        let __sym0 = __pop_Variant2(__symbols);
+        let __sym0 = __pop_Variant0(__symbols);
         let __start = __sym0.0.clone();
         let __end = __sym1.2.clone();
-        let __nt = super::__action24::<>(__sym0, __sym1);
+        let __nt = super::__action14::<>(__sym0, __sym1);
         __symbols.push((__start, __Symbol::Variant2(__nt), __end));
         (2, 2)
     }
@@ -589,12 +520,15 @@ mod __parse__S {
         _: core::marker::PhantomData<()>,
     ) -> (usize, usize)
     {
-        // R =  => ActionFn(25);
-        let __start = __lookahead_start.cloned().or_else(|| __symbols.last().map(|s| s.2.clone())).unwrap_or_default();
-        let __end = __start.clone();
-        let __nt = super::__action25::<>(&__start, &__end);
+        // S = "let", "id" => ActionFn(20);
+        assert!(__symbols.len() >= 2);
+        let __sym1 = __pop_Variant0(__symbols);
+        let __sym0 = __pop_Variant0(__symbols);
+        let __start = __sym0.0.clone();
+        let __end = __sym1.2.clone();
+        let __nt = super::__action20::<>(__sym0, __sym1);
         __symbols.push((__start, __Symbol::Variant2(__nt), __end));
-        (0, 3)
+        (2, 3)
     }
     fn __reduce5<
     >(
@@ -603,13 +537,16 @@ mod __parse__S {
         _: core::marker::PhantomData<()>,
     ) -> (usize, usize)
     {
-        // R = "r" => ActionFn(26);
+        // S = "let", "id", ";" => ActionFn(21);
+        assert!(__symbols.len() >= 3);
+        let __sym2 = __pop_Variant0(__symbols);
+        let __sym1 = __pop_Variant0(__symbols);
         let __sym0 = __pop_Variant0(__symbols);
         let __start = __sym0.0.clone();
-        let __end = __sym0.2.clone();
-        let __nt = super::__action26::<>(__sym0);
+        let __end = __sym2.2.clone();
+        let __nt = super::__action21::<>(__sym0, __sym1, __sym2);
         __symbols.push((__start, __Symbol::Variant2(__nt), __end));
-        (1, 3)
+        (3, 3)
     }
     fn __reduce6<
     >(
@@ -618,18 +555,17 @@ mod __parse__S {
         _: core::marker::PhantomData<()>,
     ) -> (usize, usize)
     {
-        // S = "a", "e", Q, R, "d" => ActionFn(33);
-        assert!(__symbols.len() >= 5);
-        let __sym4 = __pop_Variant0(__symbols);
-        let __sym3 = __pop_Variant2(__symbols);
-        let __sym2 = __pop_Variant2(__symbols);
+        // S = "let", "id", "=", "id" => ActionFn(22);
+        assert!(__symbols.len() >= 4);
+        let __sym3 = __pop_Variant0(__symbols);
+        let __sym2 = __pop_Variant0(__symbols);
         let __sym1 = __pop_Variant0(__symbols);
         let __sym0 = __pop_Variant0(__symbols);
         let __start = __sym0.0.clone();
-        let __end = __sym4.2.clone();
-        let __nt = super::__action33::<>(__sym0, __sym1, __sym2, __sym3, __sym4);
+        let __end = __sym3.2.clone();
+        let __nt = super::__action22::<>(__sym0, __sym1, __sym2, __sym3);
         __symbols.push((__start, __Symbol::Variant2(__nt), __end));
-        (5, 4)
+        (4, 3)
     }
     fn __reduce7<
     >(
@@ -638,18 +574,18 @@ mod __parse__S {
         _: core::marker::PhantomData<()>,
     ) -> (usize, usize)
     {
-        // S = "a", "e", Q, R, "c" => ActionFn(35);
+        // S = "let", "id", "=", "id", ";" => ActionFn(23);
         assert!(__symbols.len() >= 5);
         let __sym4 = __pop_Variant0(__symbols);
-        let __sym3 = __pop_Variant2(__symbols);
-        let __sym2 = __pop_Variant2(__symbols);
+        let __sym3 = __pop_Variant0(__symbols);
+        let __sym2 = __pop_Variant0(__symbols);
         let __sym1 = __pop_Variant0(__symbols);
         let __sym0 = __pop_Variant0(__symbols);
         let __start = __sym0.0.clone();
         let __end = __sym4.2.clone();
-        let __nt = super::__action35::<>(__sym0, __sym1, __sym2, __sym3, __sym4);
+        let __nt = super::__action23::<>(__sym0, __sym1, __sym2, __sym3, __sym4);
         __symbols.push((__start, __Symbol::Variant2(__nt), __end));
-        (5, 4)
+        (5, 3)
     }
     fn __reduce8<
     >(
@@ -658,18 +594,12 @@ mod __parse__S {
         _: core::marker::PhantomData<()>,
     ) -> (usize, usize)
     {
-        // S = "b", "e", Q, R, "c" => ActionFn(34);
-        assert!(__symbols.len() >= 5);
-        let __sym4 = __pop_Variant0(__symbols);
-        let __sym3 = __pop_Variant2(__symbols);
-        let __sym2 = __pop_Variant2(__symbols);
-        let __sym1 = __pop_Variant0(__symbols);
-        let __sym0 = __pop_Variant0(__symbols);
-        let __start = __sym0.0.clone();
-        let __end = __sym4.2.clone();
-        let __nt = super::__action34::<>(__sym0, __sym1, __sym2, __sym3, __sym4);
+        // Semi =  => ActionFn(16);
+        let __start = __lookahead_start.cloned().or_else(|| __symbols.last().map(|s| s.2.clone())).unwrap_or_default();
+        let __end = __start.clone();
+        let __nt = super::__action16::<>(&__start, &__end);
         __symbols.push((__start, __Symbol::Variant2(__nt), __end));
-        (5, 4)
+        (0, 4)
     }
     fn __reduce9<
     >(
@@ -678,54 +608,13 @@ mod __parse__S {
         _: core::marker::PhantomData<()>,
     ) -> (usize, usize)
     {
-        // S = "b", "e", Q, R, "d" => ActionFn(36);
-        assert!(__symbols.len() >= 5);
-        let __sym4 = __pop_Variant0(__symbols);
-        let __sym3 = __pop_Variant2(__symbols);
-        let __sym2 = __pop_Variant2(__symbols);
-        let __sym1 = __pop_Variant0(__symbols);
+        // Semi = ";" => ActionFn(17);
         let __sym0 = __pop_Variant0(__symbols);
         let __start = __sym0.0.clone();
-        let __end = __sym4.2.clone();
-        let __nt = super::__action36::<>(__sym0, __sym1, __sym2, __sym3, __sym4);
+        let __end = __sym0.2.clone();
+        let __nt = super::__action17::<>(__sym0);
         __symbols.push((__start, __Symbol::Variant2(__nt), __end));
-        (5, 4)
-    }
-    fn __reduce10<
-    >(
-        __lookahead_start: Option<&i64>,
-        __symbols: &mut alloc::vec::Vec<(i64,__Symbol<>,i64)>,
-        _: core::marker::PhantomData<()>,
-    ) -> (usize, usize)
-    {
-        // X = "e", Q, R => ActionFn(31);
-        assert!(__symbols.len() >= 3);
-        let __sym2 = __pop_Variant2(__symbols);
-        let __sym1 = __pop_Variant2(__symbols);
-        let __sym0 = __pop_Variant0(__symbols);
-        let __start = __sym0.0.clone();
-        let __end = __sym2.2.clone();
-        let __nt = super::__action31::<>(__sym0, __sym1, __sym2);
-        __symbols.push((__start, __Symbol::Variant2(__nt), __end));
-        (3, 5)
-    }
-    fn __reduce11<
-    >(
-        __lookahead_start: Option<&i64>,
-        __symbols: &mut alloc::vec::Vec<(i64,__Symbol<>,i64)>,
-        _: core::marker::PhantomData<()>,
-    ) -> (usize, usize)
-    {
-        // Y = "e", Q, R => ActionFn(32);
-        assert!(__symbols.len() >= 3);
-        let __sym2 = __pop_Variant2(__symbols);
-        let __sym1 = __pop_Variant2(__symbols);
-        let __sym0 = __pop_Variant0(__symbols);
-        let __start = __sym0.0.clone();
-        let __end = __sym2.2.clone();
-        let __nt = super::__action32::<>(__sym0, __sym1, __sym2);
-        __symbols.push((__start, __Symbol::Variant2(__nt), __end));
-        (3, 6)
+        (1, 4)
     }
 }
 #[allow(unused_imports)]
@@ -745,25 +634,23 @@ fn __action1<
 >(
     (_, l, _): (i64, i64, i64),
     (_, c0, _): (i64, Tok, i64),
-    (_, c1, _): (i64, Tree, i64),
-    (_, c2, _): (i64, Tok, i64),
+    (_, c1, _): (i64, Tok, i64),
+    (_, c2, _): (i64, Tree, i64),
+    (_, c3, _): (i64, Tree, i64),
     (_, r, _): (i64, i64, i64),
 ) -> Tree
 {
-    node("S#0", l, r, vec![Tree::from(c0), Tree::from(c1), Tree::from(c2)])
+    node("S#0", l, r, vec![Tree::from(c0), Tree::from(c1), Tree::from(c2), Tree::from(c3)])
 }
 
 #[allow(clippy::too_many_arguments, clippy::needless_lifetimes, clippy::just_underscores_and_digits, clippy::extra_unused_type_parameters)]
 fn __action2<
 >(
     (_, l, _): (i64, i64, i64),
-    (_, c0, _): (i64, Tok, i64),
-    (_, c1, _): (i64, Tree, i64),
-    (_, c2, _): (i64, Tok, i64),
     (_, r, _): (i64, i64, i64),
 ) -> Tree
 {
-    node("S#1", l, r, vec![Tree::from(c0), Tree::from(c1), Tree::from(c2)])
+    node("Init#0", l, r, vec![])
 }
 
 #[allow(clippy::too_many_arguments, clippy::needless_lifetimes, clippy::just_underscores_and_digits, clippy::extra_unused_type_parameters)]
@@ -771,25 +658,21 @@ fn __action3<
 >(
     (_, l, _): (i64, i64, i64),
     (_, c0, _): (i64, Tok, i64),
-    (_, c1, _): (i64, Tree, i64),
-    (_, c2, _): (i64, Tok, i64),
+    (_, c1, _): (i64, Tok, i64),
     (_, r, _): (i64, i64, i64),
 ) -> Tree
 {
-    node("S#2", l, r, vec![Tree::from(c0), Tree::from(c1), Tree::from(c2)])
+    node("Init#1", l, r, vec![Tree::from(c0), Tree::from(c1)])
 }
 
 #[allow(clippy::too_many_arguments, clippy::needless_lifetimes, clippy::just_underscores_and_digits, clippy::extra_unused_type_parameters)]
 fn __action4<
 >(
     (_, l, _): (i64, i64, i64),
-    (_, c0, _): (i64, Tok, i64),
-    (_, c1, _): (i64, Tree, i64),
-    (_, c2, _): (i64, Tok, i64),
     (_, r, _): (i64, i64, i64),
 ) -> Tree
 {
-    node("S#3", l, r, vec![Tree::from(c0), Tree::from(c1), Tree::from(c2)])
+    node("Semi#0", l, r, vec![])
 }
 
 #[allow(clippy::too_many_arguments, clippy::needless_lifetimes, clippy::just_underscores_and_digits, clippy::extra_unused_type_parameters)]
@@ -797,73 +680,14 @@ fn __action5<
 >(
     (_, l, _): (i64, i64, i64),
     (_, c0, _): (i64, Tok, i64),
-    (_, c1, _): (i64, Tree, i64),
-    (_, c2, _): (i64, Tree, i64),
     (_, r, _): (i64, i64, i64),
 ) -> Tree
 {
-    node("X#0", l, r, vec![Tree::from(c0), Tree::from(c1), Tree::from(c2)])
-}
-
-#[allow(clippy::too_many_arguments, clippy::needless_lifetimes, clippy::just_underscores_and_digits, clippy::extra_unused_type_parameters)]
-fn __action6<
->(
-    (_, l, _): (i64, i64, i64),
-    (_, c0, _): (i64, Tok, i64),
-    (_, c1, _): (i64, Tree, i64),
-    (_, c2, _): (i64, Tree, i64),
-    (_, r, _): (i64, i64, i64),
-) -> Tree
-{
-    node("Y#0", l, r, vec![Tree::from(c0), Tree::from(c1), Tree::from(c2)])
-}
-
-#[allow(clippy::too_many_arguments, clippy::needless_lifetimes, clippy::just_underscores_and_digits, clippy::extra_unused_type_parameters)]
-fn __action7<
->(
-    (_, l, _): (i64, i64, i64),
-    (_, c0, _): (i64, Tok, i64),
-    (_, r, _): (i64, i64, i64),
-) -> Tree
-{
-    node("Q#0", l, r, vec![Tree::from(c0)])
-}
-
-#[allow(clippy::too_many_arguments, clippy::needless_lifetimes, clippy::just_underscores_and_digits, clippy::extra_unused_type_parameters)]
-fn __action8<
->(
-    (_, l, _): (i64, i64, i64),
-    (_, c0, _): (i64, Tree, i64),
-    (_, c1, _): (i64, Tok, i64),
-    (_, r, _): (i64, i64, i64),
-) -> Tree
-{
-    node("Q#1", l, r, vec![Tree::from(c0), Tree::from(c1)])
-}
-
-#[allow(clippy::too_many_arguments, clippy::needless_lifetimes, clippy::just_underscores_and_digits, clippy::extra_unused_type_parameters)]
-fn __action9<
->(
-    (_, l, _): (i64, i64, i64),
-    (_, r, _): (i64, i64, i64),
-) -> Tree
-{
-    node("R#0", l, r, vec![])
-}
-
-#[allow(clippy::too_many_arguments, clippy::needless_lifetimes, clippy::just_underscores_and_digits, clippy::extra_unused_type_parameters)]
-fn __action10<
->(
-    (_, l, _): (i64, i64, i64),
-    (_, c0, _): (i64, Tok, i64),
-    (_, r, _): (i64, i64, i64),
-) -> Tree
-{
-    node("R#1", l, r, vec![Tree::from(c0)])
+    node("Semi#1", l, r, vec![Tree::from(c0)])
 }
 
 #[allow(clippy::needless_lifetimes, clippy::clone_on_copy)]
-fn __action11<
+fn __action6<
 >(
     __lookbehind: &i64,
     __lookahead: &i64,
@@ -873,7 +697,7 @@ fn __action11<
 }
 
 #[allow(clippy::needless_lifetimes, clippy::clone_on_copy)]
-fn __action12<
+fn __action7<
 >(
     __lookbehind: &i64,
     __lookahead: &i64,
@@ -884,43 +708,41 @@ fn __action12<
 
 #[allow(clippy::too_many_arguments, clippy::needless_lifetimes,
     clippy::just_underscores_and_digits, clippy::clone_on_copy, clippy::unit_arg)]
-fn __action13<
+fn __action8<
 >(
-    __0: (i64, Tok, i64),
-    __1: (i64, i64, i64),
+    __0: (i64, i64, i64),
 ) -> Tree
 {
     let __start0 = __0.0.clone();
     let __end0 = __0.0.clone();
-    let __temp0 = __action12(
+    let __temp0 = __action7(
         &__start0,
         &__end0,
     );
     let __temp0 = (__start0, __temp0, __end0);
-    __action7(
+    __action2(
         __temp0,
         __0,
-        __1,
     )
 }
 
 #[allow(clippy::too_many_arguments, clippy::needless_lifetimes,
     clippy::just_underscores_and_digits, clippy::clone_on_copy, clippy::unit_arg)]
-fn __action14<
+fn __action9<
 >(
-    __0: (i64, Tree, i64),
+    __0: (i64, Tok, i64),
     __1: (i64, Tok, i64),
     __2: (i64, i64, i64),
 ) -> Tree
 {
     let __start0 = __0.0.clone();
     let __end0 = __0.0.clone();
-    let __temp0 = __action12(
+    let __temp0 = __action7(
         &__start0,
         &__end0,
     );
     let __temp0 = (__start0, __temp0, __end0);
-    __action8(
+    __action3(
         __temp0,
         __0,
         __1,
@@ -930,59 +752,18 @@ fn __action14<
 
 #[allow(clippy::too_many_arguments, clippy::needless_lifetimes,
     clippy::just_underscores_and_digits, clippy::clone_on_copy, clippy::unit_arg)]
-fn __action15<
->(
-    __0: (i64, i64, i64),
-) -> Tree
-{
-    let __start0 = __0.0.clone();
-    let __end0 = __0.0.clone();
-    let __temp0 = __action12(
-        &__start0,
-        &__end0,
-    );
-    let __temp0 = (__start0, __temp0, __end0);
-    __action9(
-        __temp0,
-        __0,
-    )
-}
-
-#[allow(clippy::too_many_arguments, clippy::needless_lifetimes,
-    clippy::just_underscores_and_digits, clippy::clone_on_copy, clippy::unit_arg)]
-fn __action16<
+fn __action10<
 >(
     __0: (i64, Tok, i64),
-    __1: (i64, i64, i64),
+    __1: (i64, Tok, i64),
+    __2: (i64, Tree, i64),
+    __3: (i64, Tree, i64),
+    __4: (i64, i64, i64),
 ) -> Tree
 {
     let __start0 = __0.0.clone();
     let __end0 = __0.0.clone();
-    let __temp0 = __action12(
-        &__start0,
-        &__end0,
-    );
-    let __temp0 = (__start0, __temp0, __end0);
-    __action10(
-        __temp0,
-        __0,
-        __1,
-    )
-}
-
-#[allow(clippy::too_many_arguments, clippy::needless_lifetimes,
-    clippy::just_underscores_and_digits, clippy::clone_on_copy, clippy::unit_arg)]
-fn __action17<
->(
-    __0: (i64, Tok, i64),
-    __1: (i64, Tree, i64),
-    __2: (i64, Tok, i64),
-    __3: (i64, i64, i64),
-) -> Tree
-{
-    let __start0 = __0.0.clone();
-    let __end0 = __0.0.clone();
-    let __temp0 = __action12(
+    let __temp0 = __action7(
         &__start0,
         &__end0,
     );
@@ -993,74 +774,20 @@ fn __action17<
         __1,
         __2,
         __3,
+        __4,
     )
 }
 
 #[allow(clippy::too_many_arguments, clippy::needless_lifetimes,
     clippy::just_underscores_and_digits, clippy::clone_on_copy, clippy::unit_arg)]
-fn __action18<
+fn __action11<
 >(
-    __0: (i64, Tok, i64),
-    __1: (i64, Tree, i64),
-    __2: (i64, Tok, i64),
-    __3: (i64, i64, i64),
+    __0: (i64, i64, i64),
 ) -> Tree
 {
     let __start0 = __0.0.clone();
     let __end0 = __0.0.clone();
-    let __temp0 = __action12(
-        &__start0,
-        &__end0,
-    );
-    let __temp0 = (__start0, __temp0, __end0);
-    __action2(
-        __temp0,
-        __0,
-        __1,
-        __2,
-        __3,
-    )
-}
-
-#[allow(clippy::too_many_arguments, clippy::needless_lifetimes,
-    clippy::just_underscores_and_digits, clippy::clone_on_copy, clippy::unit_arg)]
-fn __action19<
->(
-    __0: (i64, Tok, i64),
-    __1: (i64, Tree, i64),
-    __2: (i64, Tok, i64),
-    __3: (i64, i64, i64),
-) -> Tree
-{
-    let __start0 = __0.0.clone();
-    let __end0 = __0.0.clone();
-    let __temp0 = __action12(
-        &__start0,
-        &__end0,
-    );
-    let __temp0 = (__start0, __temp0, __end0);
-    __action3(
-        __temp0,
-        __0,
-        __1,
-        __2,
-        __3,
-    )
-}
-
-#[allow(clippy::too_many_arguments, clippy::needless_lifetimes,
-    clippy::just_underscores_and_digits, clippy::clone_on_copy, clippy::unit_arg)]
-fn __action20<
->(
-    __0: (i64, Tok, i64),
-    __1: (i64, Tree, i64),
-    __2: (i64, Tok, i64),
-    __3: (i64, i64, i64),
-) -> Tree
-{
-    let __start0 = __0.0.clone();
-    let __end0 = __0.0.clone();
-    let __temp0 = __action12(
+    let __temp0 = __action7(
         &__start0,
         &__end0,
     );
@@ -1068,25 +795,20 @@ fn __action20<
     __action4(
         __temp0,
         __0,
-        __1,
-        __2,
-        __3,
     )
 }
 
 #[allow(clippy::too_many_arguments, clippy::needless_lifetimes,
     clippy::just_underscores_and_digits, clippy::clone_on_copy, clippy::unit_arg)]
-fn __action21<
+fn __action12<
 >(
     __0: (i64, Tok, i64),
-    __1: (i64, Tree, i64),
-    __2: (i64, Tree, i64),
-    __3: (i64, i64, i64),
+    __1: (i64, i64, i64),
 ) -> Tree
 {
     let __start0 = __0.0.clone();
     let __end0 = __0.0.clone();
-    let __temp0 = __action12(
+    let __temp0 = __action7(
         &__start0,
         &__end0,
     );
@@ -1095,8 +817,208 @@ fn __action21<
         __temp0,
         __0,
         __1,
+    )
+}
+
+#[allow(clippy::too_many_arguments, clippy::needless_lifetimes,
+    clippy::just_underscores_and_digits, clippy::clone_on_copy, clippy::unit_arg)]
+fn __action13<
+>(
+    __lookbehind: &i64,
+    __lookahead: &i64,
+) -> Tree
+{
+    let __start0 = __lookbehind.clone();
+    let __end0 = __lookahead.clone();
+    let __temp0 = __action6(
+        &__start0,
+        &__end0,
+    );
+    let __temp0 = (__start0, __temp0, __end0);
+    __action8(
+        __temp0,
+    )
+}
+
+#[allow(clippy::too_many_arguments, clippy::needless_lifetimes,
+    clippy::just_underscores_and_digits, clippy::clone_on_copy, clippy::unit_arg)]
+fn __action14<
+>(
+    __0: (i64, Tok, i64),
+    __1: (i64, Tok, i64),
+) -> Tree
+{
+    let __start0 = __1.2.clone();
+    let __end0 = __1.2.clone();
+    let __temp0 = __action6(
+        &__start0,
+        &__end0,
+    );
+    let __temp0 = (__start0, __temp0, __end0);
+    __action9(
+        __0,
+        __1,
+        __temp0,
+    )
+}
+
+#[allow(clippy::too_many_arguments, clippy::needless_lifetimes,
+    clippy::just_underscores_and_digits, clippy::clone_on_copy, clippy::unit_arg)]
+fn __action15<
+>(
+    __0: (i64, Tok, i64),
+    __1: (i64, Tok, i64),
+    __2: (i64, Tree, i64),
+    __3: (i64, Tree, i64),
+) -> Tree
+{
+    let __start0 = __3.2.clone();
+    let __end0 = __3.2.clone();
+    let __temp0 = __action6(
+        &__start0,
+        &__end0,
+    );
+    let __temp0 = (__start0, __temp0, __end0);
+    __action10(
+        __0,
+        __1,
         __2,
         __3,
+        __temp0,
+    )
+}
+
+#[allow(clippy::too_many_arguments, clippy::needless_lifetimes,
+    clippy::just_underscores_and_digits, clippy::clone_on_copy, clippy::unit_arg)]
+fn __action16<
+>(
+    __lookbehind: &i64,
+    __lookahead: &i64,
+) -> Tree
+{
+    let __start0 = __lookbehind.clone();
+    let __end0 = __lookahead.clone();
+    let __temp0 = __action6(
+        &__start0,
+        &__end0,
+    );
+    let __temp0 = (__start0, __temp0, __end0);
+    __action11(
+        __temp0,
+    )
+}
+
+#[allow(clippy::too_many_arguments, clippy::needless_lifetimes,
+    clippy::just_underscores_and_digits, clippy::clone_on_copy, clippy::unit_arg)]
+fn __action17<
+>(
+    __0: (i64, Tok, i64),
+) -> Tree
+{
+    let __start0 = __0.2.clone();
+    let __end0 = __0.2.clone();
+    let __temp0 = __action6(
+        &__start0,
+        &__end0,
+    );
+    let __temp0 = (__start0, __temp0, __end0);
+    __action12(
+        __0,
+        __temp0,
+    )
+}
+
+#[allow(clippy::too_many_arguments, clippy::needless_lifetimes,
+    clippy::just_underscores_and_digits, clippy::clone_on_copy, clippy::unit_arg)]
+fn __action18<
+>(
+    __0: (i64, Tok, i64),
+    __1: (i64, Tok, i64),
+    __2: (i64, Tree, i64),
+) -> Tree
+{
+    let __start0 = __1.2.clone();
+    let __end0 = __2.0.clone();
+    let __temp0 = __action13(
+        &__start0,
+        &__end0,
+    );
+    let __temp0 = (__start0, __temp0, __end0);
+    __action15(
+        __0,
+        __1,
+        __temp0,
+        __2,
+    )
+}
+
+#[allow(clippy::too_many_arguments, clippy::needless_lifetimes,
+    clippy::just_underscores_and_digits, clippy::clone_on_copy, clippy::unit_arg)]
+fn __action19<
+>(
+    __0: (i64, Tok, i64),
+    __1: (i64, Tok, i64),
+    __2: (i64, Tok, i64),
+    __3: (i64, Tok, i64),
+    __4: (i64, Tree, i64),
+) -> Tree
+{
+    let __start0 = __2.0.clone();
+    let __end0 = __3.2.clone();
+    let __temp0 = __action14(
+        __2,
+        __3,
+    );
+    let __temp0 = (__start0, __temp0, __end0);
+    __action15(
+        __0,
+        __1,
+        __temp0,
+        __4,
+    )
+}
+
+#[allow(clippy::too_many_arguments, clippy::needless_lifetimes,
+    clippy::just_underscores_and_digits, clippy::clone_on_copy, clippy::unit_arg)]
+fn __action20<
+>(
+    __0: (i64, Tok, i64),
+    __1: (i64, Tok, i64),
+) -> Tree
+{
+    let __start0 = __1.2.clone();
+    let __end0 = __1.2.clone();
+    let __temp0 = __action16(
+        &__start0,
+        &__end0,
+    );
+    let __temp0 = (__start0, __temp0, __end0);
+    __action18(
+        __0,
+        __1,
+        __temp0,
+    )
+}
+
+#[allow(clippy::too_many_arguments, clippy::needless_lifetimes,
+    clippy::just_underscores_and_digits, clippy::clone_on_copy, clippy::unit_arg)]
+fn __action21<
+>(
+    __0: (i64, Tok, i64),
+    __1: (i64, Tok, i64),
+    __2: (i64, Tok, i64),
+) -> Tree
+{
+    let __start0 = __2.0.clone();
+    let __end0 = __2.2.clone();
+    let __temp0 = __action17(
+        __2,
+    );
+    let __temp0 = (__start0, __temp0, __end0);
+    __action18(
+        __0,
+        __1,
+        __temp0,
     )
 }
 
@@ -1105,169 +1027,14 @@ fn __action21<
 fn __action22<
 >(
     __0: (i64, Tok, i64),
-    __1: (i64, Tree, i64),
-    __2: (i64, Tree, i64),
-    __3: (i64, i64, i64),
-) -> Tree
-{
-    let __start0 = __0.0.clone();
-    let __end0 = __0.0.clone();
-    let __temp0 = __action12(
-        &__start0,
-        &__end0,
-    );
-    let __temp0 = (__start0, __temp0, __end0);
-    __action6(
-        __temp0,
-        __0,
-        __1,
-        __2,
-        __3,
-    )
-}
-
-#[allow(clippy::too_many_arguments, clippy::needless_lifetimes,
-    clippy::just_underscores_and_digits, clippy::clone_on_copy, clippy::unit_arg)]
-fn __action23<
->(
-    __0: (i64, Tok, i64),
-) -> Tree
-{
-    let __start0 = __0.2.clone();
-    let __end0 = __0.2.clone();
-    let __temp0 = __action11(
-        &__start0,
-        &__end0,
-    );
-    let __temp0 = (__start0, __temp0, __end0);
-    __action13(
-        __0,
-        __temp0,
-    )
-}
-
-#[allow(clippy::too_many_arguments, clippy::needless_lifetimes,
-    clippy::just_underscores_and_digits, clippy::clone_on_copy, clippy::unit_arg)]
-fn __action24<
->(
-    __0: (i64, Tree, i64),
     __1: (i64, Tok, i64),
-) -> Tree
-{
-    let __start0 = __1.2.clone();
-    let __end0 = __1.2.clone();
-    let __temp0 = __action11(
-        &__start0,
-        &__end0,
-    );
-    let __temp0 = (__start0, __temp0, __end0);
-    __action14(
-        __0,
-        __1,
-        __temp0,
-    )
-}
-
-#[allow(clippy::too_many_arguments, clippy::needless_lifetimes,
-    clippy::just_underscores_and_digits, clippy::clone_on_copy, clippy::unit_arg)]
-fn __action25<
->(
-    __lookbehind: &i64,
-    __lookahead: &i64,
-) -> Tree
-{
-    let __start0 = __lookbehind.clone();
-    let __end0 = __lookahead.clone();
-    let __temp0 = __action11(
-        &__start0,
-        &__end0,
-    );
-    let __temp0 = (__start0, __temp0, __end0);
-    __action15(
-        __temp0,
-    )
-}
-
-#[allow(clippy::too_many_arguments, clippy::needless_lifetimes,
-    clippy::just_underscores_and_digits, clippy::clone_on_copy, clippy::unit_arg)]
-fn __action26<
->(
-    __0: (i64, Tok, i64),
-) -> Tree
-{
-    let __start0 = __0.2.clone();
-    let __end0 = __0.2.clone();
-    let __temp0 = __action11(
-        &__start0,
-        &__end0,
-    );
-    let __temp0 = (__start0, __temp0, __end0);
-    __action16(
-        __0,
-        __temp0,
-    )
-}
-
-#[allow(clippy::too_many_arguments, clippy::needless_lifetimes,
-    clippy::just_underscores_and_digits, clippy::clone_on_copy, clippy::unit_arg)]
-fn __action27<
->(
-    __0: (i64, Tok, i64),
-    __1: (i64, Tree, i64),
     __2: (i64, Tok, i64),
+    __3: (i64, Tok, i64),
 ) -> Tree
 {
-    let __start0 = __2.2.clone();
-    let __end0 = __2.2.clone();
-    let __temp0 = __action11(
-        &__start0,
-        &__end0,
-    );
-    let __temp0 = (__start0, __temp0, __end0);
-    __action17(
-        __0,
-        __1,
-        __2,
-        __temp0,
-    )
-}
-
-#[allow(clippy::too_many_arguments, clippy::needless_lifetimes,
-    clippy::just_underscores_and_digits, clippy::clone_on_copy, clippy::unit_arg)]
-fn __action28<
->(
-    __0: (i64, Tok, i64),
-    __1: (i64, Tree, i64),
-    __2: (i64, Tok, i64),
-) -> Tree
-{
-    let __start0 = __2.2.clone();
-    let __end0 = __2.2.clone();
-    let __temp0 = __action11(
-        &__start0,
-        &__end0,
-    );
-    let __temp0 = (__start0, __temp0, __end0);
-    __action18(
-        __0,
-        __1,
-        __2,
-        __temp0,
-    )
-}
-
-#[allow(clippy::too_many_arguments, clippy::needless_lifetimes,
-    clippy::just_underscores_and_digits, clippy::clone_on_copy, clippy::unit_arg)]
-fn __action29<
->(
-    __0: (i64, Tok, i64),
-    __1: (i64, Tree, i64),
-    __2: (i64, Tok, i64),
-) -> Tree
-{
-    let __start0 = __2.2.clone();
-    let __end0 = __2.2.clone();
-    let __temp0 = __action11(
+    let __start0 = __3.2.clone();
+    let __end0 = __3.2.clone();
+    let __temp0 = __action16(
         &__start0,
         &__end0,
     );
@@ -1276,183 +1043,34 @@ fn __action29<
         __0,
         __1,
         __2,
+        __3,
         __temp0,
     )
 }
 
 #[allow(clippy::too_many_arguments, clippy::needless_lifetimes,
     clippy::just_underscores_and_digits, clippy::clone_on_copy, clippy::unit_arg)]
-fn __action30<
+fn __action23<
 >(
     __0: (i64, Tok, i64),
-    __1: (i64, Tree, i64),
+    __1: (i64, Tok, i64),
     __2: (i64, Tok, i64),
-) -> Tree
-{
-    let __start0 = __2.2.clone();
-    let __end0 = __2.2.clone();
-    let __temp0 = __action11(
-        &__start0,
-        &__end0,
-    );
-    let __temp0 = (__start0, __temp0, __end0);
-    __action20(
-        __0,
-        __1,
-        __2,
-        __temp0,
-    )
-}
-
-#[allow(clippy::too_many_arguments, clippy::needless_lifetimes,
-    clippy::just_underscores_and_digits, clippy::clone_on_copy, clippy::unit_arg)]
-fn __action31<
->(
-    __0: (i64, Tok, i64),
-    __1: (i64, Tree, i64),
-    __2: (i64, Tree, i64),
-) -> Tree
-{
-    let __start0 = __2.2.clone();
-    let __end0 = __2.2.clone();
-    let __temp0 = __action11(
-        &__start0,
-        &__end0,
-    );
-    let __temp0 = (__start0, __temp0, __end0);
-    __action21(
-        __0,
-        __1,
-        __2,
-        __temp0,
-    )
-}
-
-#[allow(clippy::too_many_arguments, clippy::needless_lifetimes,
-    clippy::just_underscores_and_digits, clippy::clone_on_copy, clippy::unit_arg)]
-fn __action32<
->(
-    __0: (i64, Tok, i64),
-    __1: (i64, Tree, i64),
-    __2: (i64, Tree, i64),
-) -> Tree
-{
-    let __start0 = __2.2.clone();
-    let __end0 = __2.2.clone();
-    let __temp0 = __action11(
-        &__start0,
-        &__end0,
-    );
-    let __temp0 = (__start0, __temp0, __end0);
-    __action22(
-        __0,
-        __1,
-        __2,
-        __temp0,
-    )
-}
-
-#[allow(clippy::too_many_arguments, clippy::needless_lifetimes,
-    clippy::just_underscores_and_digits, clippy::clone_on_copy, clippy::unit_arg)]
-fn __action33<
->(
-    __0: (i64, Tok, i64),
-    __1: (i64, Tok, i64),
-    __2: (i64, Tree, i64),
-    __3: (i64, Tree, i64),
+    __3: (i64, Tok, i64),
     __4: (i64, Tok, i64),
 ) -> Tree
 {
-    let __start0 = __1.0.clone();
-    let __end0 = __3.2.clone();
-    let __temp0 = __action31(
+    let __start0 = __4.0.clone();
+    let __end0 = __4.2.clone();
+    let __temp0 = __action17(
+        __4,
+    );
+    let __temp0 = (__start0, __temp0, __end0);
+    __action19(
+        __0,
         __1,
         __2,
         __3,
-    );
-    let __temp0 = (__start0, __temp0, __end0);
-    __action27(
-        __0,
         __temp0,
-        __4,
-    )
-}
-
-#[allow(clippy::too_many_arguments, clippy::needless_lifetimes,
-    clippy::just_underscores_and_digits, clippy::clone_on_copy, clippy::unit_arg)]
-fn __action34<
->(
-    __0: (i64, Tok, i64),
-    __1: (i64, Tok, i64),
-    __2: (i64, Tree, i64),
-    __3: (i64, Tree, i64),
-    __4: (i64, Tok, i64),
-) -> Tree
-{
-    let __start0 = __1.0.clone();
-    let __end0 = __3.2.clone();
-    let __temp0 = __action31(
-        __1,
-        __2,
-        __3,
-    );
-    let __temp0 = (__start0, __temp0, __end0);
-    __action29(
-        __0,
-        __temp0,
-        __4,
-    )
-}
-
-#[allow(clippy::too_many_arguments, clippy::needless_lifetimes,
-    clippy::just_underscores_and_digits, clippy::clone_on_copy, clippy::unit_arg)]
-fn __action35<
->(
-    __0: (i64, Tok, i64),
-    __1: (i64, Tok, i64),
-    __2: (i64, Tree, i64),
-    __3: (i64, Tree, i64),
-    __4: (i64, Tok, i64),
-) -> Tree
-{
-    let __start0 = __1.0.clone();
-    let __end0 = __3.2.clone();
-    let __temp0 = __action32(
-        __1,
-        __2,
-        __3,
-    );
-    let __temp0 = (__start0, __temp0, __end0);
-    __action28(
-        __0,
-        __temp0,
-        __4,
-    )
-}
-
-#[allow(clippy::too_many_arguments, clippy::needless_lifetimes,
-    clippy::just_underscores_and_digits, clippy::clone_on_copy, clippy::unit_arg)]
-fn __action36<
->(
-    __0: (i64, Tok, i64),
-    __1: (i64, Tok, i64),
-    __2: (i64, Tree, i64),
-    __3: (i64, Tree, i64),
-    __4: (i64, Tok, i64),
-) -> Tree
-{
-    let __start0 = __1.0.clone();
-    let __end0 = __3.2.clone();
-    let __temp0 = __action32(
-        __1,
-        __2,
-        __3,
-    );
-    let __temp0 = (__start0, __temp0, __end0);
-    __action30(
-        __0,
-        __temp0,
-        __4,
     )
 }
 
